@@ -115,6 +115,7 @@ def build_ops():
         ("copy_with_new_atts(bold)", lambda v: [v.copy_with_new_atts(bold=True)]),
         ("copy_with_new_atts(fg)", lambda v: [v.copy_with_new_atts(fg=32)]),
         ("copy_with_new_atts(bold=False)", lambda v: [v.copy_with_new_atts(bold=False)]),
+        ("copy_with_new_atts(underline, invert) and fmtstr(v, 'red', 'bold')", lambda v: [v.copy_with_new_atts(underline=True, invert=True), fmtstr(v, "red", "bold")]),  # several attributes, keyword order not sorted
         ("fmtstr(v,bold=False,underline=False)", lambda v: [fmtstr(v, bold=False, underline=False)]),
         ("new_with_atts_removed(fg)", lambda v: [v.new_with_atts_removed("fg")]),
         ("new_with_atts_removed(bold,bg)", lambda v: [v.new_with_atts_removed("bold", "bg")]),
